@@ -1,3 +1,4 @@
+\* after a run the user goes on with the same object: up to four what-if steps
 SPECIFICATION Spec
 CONSTANTS
   Values <- MCValues
@@ -14,7 +15,7 @@ CONSTANTS
   TrialReset = TRUE
   FinalReset = TRUE
   CompRebases = FALSE
-  MaxUser = 0
+  MaxUser = 4
 INVARIANT TypeOK
 INVARIANT RowsTrue
 INVARIANT NominalReproduced
